@@ -13,5 +13,5 @@ CONSTANTS
   Record = TRUE
 INVARIANTS TypeOK LookupSoundBytes LookupSoundFileModTrimRace HitThenReadableModTrimRace SizeImpliesComplete NoLeak LookupSoundFile HitThenReadable EmitLookup
 PROPERTY PutPost
-VIEW View
+VIEW ViewFaults
 CHECK_DEADLOCK TRUE
